@@ -1886,6 +1886,16 @@ ure_buffer_free(ure_buffer_t buf)
       free((char *) buf->symtab[i].states.slist);
   }
 
+  /*
+   * Symbols are still here if the last compilation failed.
+   */
+  for (i = 0; i < buf->symtab_used; i++) {
+    if ((buf->symtab[i].type == _URE_CCLASS ||
+	 buf->symtab[i].type == _URE_NCCLASS) &&
+	buf->symtab[i].sym.ccl.ranges_size > 0)
+      free((char *) buf->symtab[i].sym.ccl.ranges);
+  }
+
   if (buf->symtab_size > 0)
     free((char *) buf->symtab);
 
